@@ -1237,7 +1237,11 @@ def _run_energy(case):
     with contextlib.redirect_stdout(buf):
         simu = Simulations.HyperElastic(mesh, mat, absTol=1e-11, relTol=1e-14, incTol=1e-14, maxIter=25, verbosity=False)
         simu.rho = 1.3
-        simu.Solver_Set_Hyperbolic_Algorithm(dt, algo=AlgoType.midpoint)
+        if case["v0"] == "spin":
+            # the midpoint rule has no parameter (AlgoType.midpoint docstring: fixed formulas): left-over Newmark coefficients must not matter
+            simu.Solver_Set_Hyperbolic_Algorithm(dt, algo=AlgoType.midpoint, beta=0.3025, gamma=0.6)
+        else:
+            simu.Solver_Set_Hyperbolic_Algorithm(dt, algo=AlgoType.midpoint)
         if case["stress"] == "gonzalez":
             simu.Solver_Set_Stress(simu.StressType.gonzalez)
         else:
